@@ -170,3 +170,103 @@ func VerifH_C06_QuantTwins(seg int) {
 	verifapi.Assert(s.Quant == q, "segment quantiser index recorded for the header")
 	verifapi.Cover(true, "compared")
 }
+
+// ---- token round trip without the arithmetic coder ----
+//
+// RecordCoeffs turns a block of quantised levels into (bit, probability) tokens; the decoder's
+// getCoeffsInline walks its coefficient tree asking for one bit per probability. The boolean coder
+// transports each bit under the probability both sides name; here it is replaced by a script
+// (redirect of fastBit / fastSigned): the decoder is fed the recorded bits in order and every
+// probability it names must be the one the encoder recorded. The decoder must consume exactly the
+// recorded tokens and rebuild exactly the levels.
+var (
+	vTok    []Token
+	vTokPos int
+	vTokBad bool
+)
+
+func vScriptBit(prob uint8, brV uint64, brR uint32, brB int) (int, uint64, uint32, int) {
+	if vTokPos >= len(vTok) {
+		vTokBad = true
+		return 0, brV, brR, brB
+	}
+	t := vTok[vTokPos]
+	vTokPos++
+	if t.Prob != prob {
+		vTokBad = true
+	}
+	return int(t.Bit), brV, brR, brB
+}
+
+func vScriptSigned(v int, brV uint64, brR uint32, brB int) (int, uint64, uint32, int) {
+	bit, _, _, _ := vScriptBit(128, brV, brR, brB)
+	if bit != 0 {
+		return -v, brV, brR, brB
+	}
+	return v, brV, brR, brB
+}
+
+// VerifH_C06_TokenRoundTrip(ctxType, first, pattern): ctxType 0 i16-AC, 1 i16-DC (WHT), 2 chroma, 3 i4;
+// first = first coded position (1 for i16-AC). pattern selects which scan positions hold a SYMBOLIC
+// level (|level| <= 2048) and which hold fixed small levels; the initial neighbour context is symbolic.
+func VerifH_C06_TokenRoundTrip(ctxType, first, pattern int) {
+	var proba Proba
+	ResetProba(&proba)
+	var coeffs [16]int16
+	sym := func(n int) {
+		v := verifapi.I16("level")
+		verifapi.Assume(v >= -2048 && v <= 2048)
+		coeffs[KZigzag[n]] = v
+	}
+	switch pattern {
+	case 0: // one symbolic level at the first position, nothing else
+		sym(first)
+	case 1: // zero run, symbolic level, fixed tail
+		sym(first + 2)
+		coeffs[KZigzag[first+3]] = -1
+		coeffs[KZigzag[first+6]] = 3
+	case 2: // two symbolic levels (the second one's context depends on the first)
+		sym(first)
+		sym(first + 1)
+	case 3: // symbolic level at the last position after fixed ones
+		coeffs[KZigzag[first]] = 7
+		coeffs[KZigzag[first+1]] = -20
+		sym(15)
+	case 4: // all zero
+	}
+	if first == 1 {
+		coeffs[0] = int16(verifapi.I16("dc_not_coded_here")) // i16-AC blocks: the DC travels in the WHT block
+	}
+	// position after the last non-zero level in scan order, as the encoder's nzCount computes it
+	nCoeffs := 0
+	for n := first; n < 16; n++ {
+		if coeffs[KZigzag[n]] != 0 {
+			nCoeffs = n + 1
+		}
+	}
+	ctx := int(verifapi.U8("ctx"))
+	verifapi.Assume(ctx <= 2)
+	var tb TokenBuffer
+	tb.Init(1)
+	cnt := tb.RecordCoeffs(coeffs[:], nCoeffs, ctxType, &proba, first, ctx)
+	vTok, vTokPos, vTokBad = nil, 0, false
+	for _, pg := range tb.pages {
+		vTok = append(vTok, pg.tokens[:pg.count]...)
+	}
+	verifapi.Assert(cnt == len(vTok), "RecordCoeffs returns the number of tokens it recorded")
+	br := &bitio.BoolReader{Bits: 1 << 20, Range: 254}
+	var out [16]int16
+	n := getCoeffsInline(br, &proba.BandsPtr[ctxType], ctx, 1, 1, first, out[:])
+	verifapi.Assert(!vTokBad, "the decoder asks for the recorded bits under the recorded probabilities, and for no more")
+	verifapi.Assert(vTokPos == len(vTok), "the decoder consumes every recorded token")
+	for i := 0; i < 16; i++ {
+		if i == 0 && first == 1 {
+			continue
+		}
+		verifapi.Assert(out[i] == coeffs[i], "decoded level equals the encoded level")
+	}
+	if nCoeffs > first {
+		verifapi.Assert(n == nCoeffs, "decoder's end position = position after the last non-zero level")
+	}
+	verifapi.Cover(true, "round trip compared")
+}
